@@ -176,6 +176,12 @@ class StmtMixin:
         if any(y is not None for y in ys):
             ys = [y if y is not None else Sym("seq", Q.Empty(), Spec("seq", VAL)) for y in ys]
             m.yielded = pick(ys)
+        gk = set()
+        for s in group:
+            gk |= set((s.notes.get("ghost_appends") or {}))
+        if gk:
+            empty = Sym("seq", Q.Empty(), Spec("seq", VAL))
+            m.notes["ghost_appends"] = {k: pick([(s.notes.get("ghost_appends") or {}).get(k, empty) for s in group]) for k in gk}
         m.trace = group[0].trace[:] + ["⋈"]
         if any(s.notes.get("bounded") for s in group):
             m.notes["bounded"] = True
@@ -237,7 +243,14 @@ class StmtMixin:
         if isinstance(v, ast.Call) and isinstance(v.func, ast.Attribute) and v.func.attr in self.MUTATORS:
             txt = ast.unparse(v.func.value)
             if any(txt.startswith(u) for u in self.contract.unmodelled):
-                self.collector.assumptions.add(f"{self.kernel.qualname}: statement `{ast.unparse(v)[:60]}` mutates state outside the model; skipped")
+                self.collector.assumptions.add(f"{self.kernel.qualname}: statement `{ast.unparse(v)[:60]}` mutates state outside the model; only recorded as a ghost append")
+                if v.func.attr == "append" and len(v.args) == 1:
+                    item = self.eval(v.args[0], st)
+                    g = dict(st.notes.get("ghost_appends") or {})
+                    cur = g.get(txt) or Sym("seq", Q.Empty(), Spec("seq", VAL))
+                    g[txt] = Sym("seq", Q.Concat(st, cur.t, Q.Unit(st, box(item, st))), Spec("seq", VAL))
+                    st.notes["ghost_appends"] = g
+                    return self.simple(st)
                 return [(st, NORMAL)]
         self.eval(v, st)
         return self.simple(st)
@@ -621,7 +634,10 @@ class StmtMixin:
 
     def unrolled_for(self, node, st, view, ls, ordinal):
         """Bounded stand-in: the loop is unrolled `ls.unroll` times; the iterable is *assumed* no longer."""
-        self.collector.bounded.add(f"{self.kernel.qualname} loop {ordinal} unrolled {ls.unroll}x (iterable length <= {ls.unroll} assumed)")
+        # unwinding assertion (as in CBMC): the iterable is proved to be no longer than the unrolling
+        # depth; when it discharges the unrolling is complete, not a bounded stand-in.
+        self.collector.add(Obligation(f"{self.kernel.qualname}#unwind.loop{ordinal}<= {ls.unroll}".replace(" ", ""), "unwind", st.hyps(),
+                                      view.length <= ls.unroll, f"loop {ordinal} line {node.lineno}", self.kernel.qualname))
         st.pc.append(view.length <= ls.unroll)
         outs = []
         states = [st]
